@@ -28,6 +28,7 @@ from .values import (
     HObj,
     LazyPrefix,
     Native,
+    OpaqueFn,
     NeedFork,
     Opq,
     Partial,
@@ -451,6 +452,11 @@ class Engine:
         return [(node.value, st)]
 
     def ev_Name(self, node, st):
+        if self.opaque and node.id in self.opaque and len(self.frames) >= 1:
+            fr = self.frames[-1]
+            local = any(node.id in (st.scopes.get(sid) or {}) for sid in [fr.sid] + list(fr.fn.scopes if fr.fn else []))
+            if not local:
+                return [(OpaqueFn(node.id), st)]  # the opaque callee used as a value (map(f, ...), partial(f, ...))
         return [(self.lookup(node.id, st), st)]
 
     def ev_Tuple(self, node, st):
@@ -1004,28 +1010,32 @@ class Engine:
                         kwargs.update(self.dict_items_concrete(v, s3))
                     else:
                         kwargs[k.arg] = v
-                self.opq_ctr = getattr(self, "opq_ctr", 0) + 1
-                tag = "%s#%d" % (name.replace(".", "_"), self.opq_ctr)
-                ret = spec.get("ret", "obj")
-                if ret == "bool":
-                    r = Sym(fresh("r_" + tag, B), "bool")
-                elif ret == "str":
-                    r = Sym(fresh("r_" + tag, S), "str")
-                elif ret == "none":
-                    r = None
-                elif ret == "kwargs-thunk":
-                    r = Native(dict)
-                elif isinstance(ret, tuple) and ret[0] == "obj":
-                    r = Opq(fresh("r_" + tag, Obj), ret[1])
-                else:
-                    r = Opq(fresh("r_" + tag, Obj), None)
-                s3.log.append({"callee": name, "args": list(args), "kwargs": kwargs, "result": r, "effect": bool(spec.get("effect"))})
-                self.assumed.add("opaque call %s: result unconstrained%s" % (name, ", effect logged" if spec.get("effect") else ""))
-                return [(r, s3)]
+                return self.opaque_apply(name, list(args), kwargs, s3)
 
             return self.bind(self.ev_list([k.value for k in node.keywords], s2), after_kw)
 
         return self.bind(self.ev_list(node.args, st), after_args)
+
+    def opaque_apply(self, name, args, kwargs, s3):
+        spec = self.opaque[name]
+        self.opq_ctr = getattr(self, "opq_ctr", 0) + 1
+        tag = "%s#%d" % (name.replace(".", "_"), self.opq_ctr)
+        ret = spec.get("ret", "obj")
+        if ret == "bool":
+            r = Sym(fresh("r_" + tag, B), "bool")
+        elif ret == "str":
+            r = Sym(fresh("r_" + tag, S), "str")
+        elif ret == "none":
+            r = None
+        elif ret == "kwargs-thunk":
+            r = Native(dict)
+        elif isinstance(ret, tuple) and ret[0] == "obj":
+            r = Opq(fresh("r_" + tag, Obj), ret[1])
+        else:
+            r = Opq(fresh("r_" + tag, Obj), None)
+        s3.log.append({"callee": name, "args": list(args), "kwargs": kwargs, "result": r, "effect": bool(spec.get("effect"))})
+        self.assumed.add("opaque call %s: result unconstrained%s" % (name, ", effect logged" if spec.get("effect") else ""))
+        return [(r, s3)]
 
     def dict_items_concrete(self, v, st):
         if isinstance(v, Ref) and isinstance(st.heap[v.oid], HDict):
@@ -1068,6 +1078,8 @@ class Engine:
             return self.call(fv.f, list(fv.args) + args, dict(fv.kwargs, **kwargs), st)
         if isinstance(fv, Fn):
             return self.call_fn(fv, args, kwargs, st)
+        if isinstance(fv, OpaqueFn):
+            return self.opaque_apply(fv.name, list(args), dict(kwargs), st)
         if isinstance(fv, UFn):
             terms = [to_term(a) for a in args]
             r = fv.decl(*terms)
